@@ -21,15 +21,16 @@ class C18(core.Property):
     lean_files = ["HappyModel/C18/*.lean", "HappyProofs/C18/*.lean", "HappyModel/Proto.lean", "Driver/C18.lean"]
     theorems = []  # filled from THEOREMS below
     partial_theorems = {
-        "HappyModel.C18.store_trace_satisfies_spec_given_union":
-            "full statement store_trace_satisfies_spec_full (judgeStore of the model's transcript = none) is proved for every "
-            "well-formed script UNDER ONE HYPOTHESIS, the knowledge statement UnionAfter for the trailing lossless rounds (when "
-            "their owed flows are full, every store has received, for every key, exactly the union of what the stores had received "
-            "when the rounds began). Proved unconditionally: all per-step clauses on the whole transcript "
-            "(store_trace_satisfies_spec_steps), the pre/suffix plumbing (judgeStore's split of the transcript is a split of the "
-            "script: traceObs_split, go_append), and that the final clause never fires given UnionAfter (judgeFinal_model, via "
-            "judgeValue_congr: the value clause sees only the records and the set of received updates). Gap: UnionAfter itself "
-            "(per-round knowledge flow through the push / answer messages, freshness of message entities) is not proved",
+        "HappyModel.C18.store_trace_satisfies_spec_given_round_facts":
+            "full statement store_trace_satisfies_spec_full (judgeStore of the model's transcript = none, every well-formed script) "
+            "is proved UNDER ONE HYPOTHESIS about a single lossless round, RoundFacts: in the state reached by any well-formed script, "
+            "(a) what the round owes flows (the ticking store's knowledge of every key reaches the chosen peer, and the peer's reaches "
+            "the ticking store when an answer is owed) and (b) after the round a store knows only what some store knew before. "
+            "Proved unconditionally: all per-step clauses, the pre/suffix plumbing, the final clause given UnionAfter "
+            "(store_trace_satisfies_spec_given_union), what unionAll knows (unionAll_know), constancy of the peer lists, and the "
+            "induction over the trailing rounds (unionAfter_of_roundFacts: RoundFacts ⇒ UnionAfter). Gap: RoundFacts itself — "
+            "needs the explicit per-key merges of a round (push built, push merged, answer built, answer merged) and a freshness "
+            "invariant (no earlier operation has a not-yet-created message entity n+len as its target), neither proved",
     }
     variants = ["repaired", "current"]   # store family: adoption of a peer's key (fixes/C18-store-adopts-remote-node-id)
     quick_cases = 4500
@@ -86,7 +87,7 @@ class C18(core.Property):
         "and the peer lists are < n) all per-step clauses are proved accepted (store_trace_satisfies_spec_steps), judgeStore's "
         "pre/suffix split is proved to be a split of the script, and the final clause "
         "store/gossip/no-convergence-after-heal-and-rounds is proved never to fire GIVEN the knowledge statement UnionAfter "
-        "(store_trace_satisfies_spec_given_union); UnionAfter itself is the one remaining unproved obligation — the literal "
+        "(store_trace_satisfies_spec_given_union); UnionAfter is in turn proved from the single-round statement RoundFacts (store_trace_satisfies_spec_given_round_facts), which is the one remaining unproved obligation — the literal "
         "'same reach' formulation is false per key (a store that does not hold a key emits no merge for it), the knowledge-level "
         "one is the right statement",
     ]
@@ -727,6 +728,9 @@ THEOREMS = [
     "HappyModel.C18.judgeValue_congr",
     "HappyModel.C18.judgeFinal_model",
     "HappyModel.C18.store_trace_satisfies_spec_given_union",
+    "HappyModel.C18.unionAll_know",
+    "HappyModel.C18.unionAfter_of_roundFacts",
+    "HappyModel.C18.store_trace_satisfies_spec_given_round_facts",
 ]
 C18.theorems = THEOREMS
 PROPERTY = C18()
